@@ -148,7 +148,8 @@ def run_once_e3(cfg: E3Config, chooser: Chooser, *, world_hook=None) -> Obs3:
     orig_rol = lt_process.run_or_load_task
     try:
         precache(storage, spec, built, base.precached, ctx)
-        U.WORLD.reset(epoch=1, faults=[spec.labels[i] for i in base.faults])
+        U.WORLD.reset(epoch=1, faults=[spec.labels[i] for i in base.faults],
+                      emit={spec.labels[i]: pat for i, pat in base.emit})
         with Patched(world):
             inner = lt_process.ForkRunnerBackend() if cfg.backend == 'fork' else lt_process.SpawnRunnerBackend()
             backend = _BindingSpyBackend(inner, world, horizon=8 * spec.n + 16)
